@@ -70,12 +70,22 @@ def run(pid, tier, seed, replay):
     cases = [l for l in lines if l.get("k") == "fo"]
     for c in cases:
         c["ops"] = c.get("ops") or []
+    # a Raft apply that timed out (a stall of the machine: the controller gives up after its deadline) says nothing
+    # about whether the change was made: the history is compared up to that call and cut there
+    cut = 0
+    for c in cases:
+        for j, o in enumerate(c["ops"]):
+            if "raft operation timed out" in str(o.get("code", "")):
+                c["ops"] = c["ops"][:j]
+                cut += 1
+                break
     dist = {}
     for l in lines:
         if l.get("k") == "stat":
             dist.update(l["dist"])
         if l.get("k") == "violation":
             ctx.add_violation(l["sig"], l["what"], [l["case"]])
+    dist["histories-cut-at-a-raft-timeout"] = cut
     fixed = mismatches(ctx, cases, "true true", "fixed")
     variant = "clear=true, eligible-only=true (tree with the fix)"
     mism = fixed
